@@ -160,6 +160,8 @@ class WriterActor(Actor):
 
         if self.handle is None:
             self.handle = SimWriteHandle(world, self.spec['file'], self.id)
+            self.handle.returns_none = bool(
+                self.spec.get('write_returns_none'))
             kw = {}
 
             if 'main_encoding' in self.spec:
@@ -331,8 +333,31 @@ PREFIXES = [b'', b'From: someone\r\nSubject: a patch\r\n\r\n',
             b'#diffx: version=9.9\n', b'z' * 5000]
 
 
+def consumer_mutates(rec, mode):
+    """A consumer that takes ownership of what it was handed: a yielded
+    record is the consumer's to edit (pydiffx.dom.reader itself pops
+    options from them); nothing read later may depend on it."""
+    if not isinstance(rec, dict) or not mode:
+        return
+
+    o = rec.get('options')
+
+    if isinstance(o, dict):
+        if mode == 1:
+            o.clear()
+        elif mode == 2:
+            o['encoding'] = 'utf-32'
+            o['length'] = 1
+            o['indent'] = 1
+        elif mode == 3:
+            o.pop('encoding', None)
+        else:
+            o.clear()
+            rec.clear()
+
+
 def open_stream(world, kind, data, actor, buf=None, cap=None,
-                read_error_at=None, prefix=0):
+                read_error_at=None, prefix=0, extras=None):
     """prefix: index into PREFIXES - bytes that precede the DiffX data in
     the stream and have already been consumed by the caller, so the stream
     is handed over positioned at the start of the DiffX data (an envelope, a
@@ -353,8 +378,13 @@ def open_stream(world, kind, data, actor, buf=None, cap=None,
 
         return st, raw._h
     else:
+        x = extras or {}
         h = SimReadHandle(world, data, actor, cap=cap,
-                          read_error_at=read_error_at)
+                          read_error_at=read_error_at,
+                          seek_none=bool(x.get('seek_none')),
+                          short_at=[len(pre) + int(b) for b in
+                                    x.get('short_at') or ()
+                                    if isinstance(b, int)])
         h.pos = len(pre)
         return h, h
 
@@ -435,7 +465,8 @@ class ReaderActor(Actor):
             self.data = apply_faults(world, stored, faults, fname)
             self.stream, self.handle = open_stream(
                 world, self.spec.get('stream', 'sim'), self.data, self.id,
-                buf=self.spec.get('buf'), prefix=self.spec.get('prefix', 0))
+                buf=self.spec.get('buf'), prefix=self.spec.get('prefix', 0),
+                extras=self.spec)
             cls = sized_reader_cls(L, self.spec.get('block_size'))
             self.it = iter(make_reader(cls, self.stream,
                                        bool(self.spec.get('late_rewind')),
@@ -444,7 +475,13 @@ class ReaderActor(Actor):
 
         try:
             rec = next(self.it)
-            self.records.append(rec)
+
+            if self.spec.get('mutate'):
+                self.records.append(copy.deepcopy(rec))
+                consumer_mutates(rec, self.spec.get('mutate'))
+            else:
+                self.records.append(rec)
+
             world.ev(self.id, 'record', len(self.records) - 1,
                      jsonable(rec.get('section')) if isinstance(rec, dict)
                      else None)
@@ -467,19 +504,93 @@ class ReaderActor(Actor):
 
 
 def read_all(world, data, block_size=None, stream='sim', buf=None,
-             actor='aux', prefix=0, late_rewind=False):
+             actor='aux', prefix=0, late_rewind=False, extras=None):
     """Synchronous whole-file read used by oracles that need the records of
     a variant (intact file, other configuration).  Same seams, same event
     log."""
     L = world.L
-    st, h = open_stream(world, stream, data, actor, buf=buf, prefix=prefix)
+    st, h = open_stream(world, stream, data, actor, buf=buf, prefix=prefix,
+                        extras=extras)
     cls = sized_reader_cls(L, block_size)
+    recs = []
+    end = 'eof'
+    exc = None
+    mutate = (extras or {}).get('mutate')
+
+    try:
+        for rec in make_reader(cls, st, late_rewind, world):
+            if mutate:
+                recs.append(copy.deepcopy(rec))
+                consumer_mutates(rec, mutate)
+            else:
+                recs.append(rec)
+    except SimEventCap:
+        end = 'cap'
+    except SimHang:
+        end = 'hang'
+    except Exception as e:
+        end = 'raise'
+        exc = e
+
+    return recs, end, exc
+
+
+def header_short_reads(data, seed):
+    """Offsets strictly inside the header lines of `data` (lines starting
+    with '#'; only for generated files whose content lines never do), one
+    per header line, a pure function of (data, seed)."""
+    out = []
+    pos = 0
+
+    for line in data.split(b'\n'):
+        n = len(line) + 1
+
+        if line.startswith(b'#') and len(line) > 1:
+            out.append(pos + 1 + (seed * 7919 + pos) % (len(line) - 1))
+
+        pos += n
+
+    return out
+
+
+def read_twice(world, data, block_size=None, actor='aux', abandon=None,
+               extras=None):
+    """The same reader object iterated twice over the same stream: a
+    first pass that runs to its end, fails, or is abandoned after `abandon`
+    records; the caller then rewinds the stream and iterates again.  Returns
+    the (records, end, exc) of the second pass."""
+    L = world.L
+    st, h = open_stream(world, 'sim', data, actor, extras=extras)
+    cls = sized_reader_cls(L, block_size)
+    rd = make_reader(cls, st, False, world)
+    start = st.tell()
+
+    try:
+        it = iter(rd)
+        n = 0
+
+        for rec in it:
+            n += 1
+
+            if abandon is not None and n >= abandon:
+                close = getattr(it, 'close', None)
+
+                if close is not None:
+                    close()
+
+                break
+    except (SimEventCap, SimHang):
+        raise
+    except Exception:
+        pass
+
+    st.seek(start)
     recs = []
     end = 'eof'
     exc = None
 
     try:
-        for rec in make_reader(cls, st, late_rewind, world):
+        for rec in rd:
             recs.append(rec)
     except SimEventCap:
         end = 'cap'
